@@ -27,7 +27,7 @@ def run(ctx):
     storage.delineate_minimum(ctx, s)
     from . import layout
     ev_fns = [f for f in ctx.F.fns.values() if f.kind != "Closure" and f.nice.startswith("pocket_types::Event::")]
-    layout.reader_width_agreement(ctx, s, sorted(ev_fns, key=lambda f: f.nice), "event")
+    layout.reader_width_agreement(ctx, s, sorted(ev_fns, key=lambda f: f.nice), "event", spec={(144, 144): 4})
     storage.recorded_length_is_file_length(ctx, s)
     storage.reopen_validates_marker(ctx, s)
     storage.append_index_commit_order(ctx, s, "pocket_db::Store::store_event")
